@@ -144,10 +144,8 @@ def generate(rng, tier, mode="default"):
         for cap in (2 ** k - 1, 2 ** k, 2 ** k + 1):
             out.append([hdr(cap=cap), "add_last 5", "add_first 6", "remove_last", "END"])
             out.append([hdr("queue", cap=cap), "enqueue 5", "poll", "END"])
-    # trim after shrinking across a power-of-two boundary above 2^16 (thorough only: needs > 65536 elements)
-    if not quick:
-        for n in (65537, 131073):
-            out.append([hdr(cap=4)] + ["add_last %d" % i for i in range(n)] + ["remove_first", "remove_last", "trim", "add_last 9", "add_first 8", "END"])
+    # (no trace holds more than a few thousand elements: the list-based model is quadratic, and upper_pow_two above
+    #  2^16 is covered by the constructor traces above and by the whole-function translation tie, Deque/DequeTie.v)
     # (c0) zip iterator add under every single refusal: one deque exactly full, the other with room (both orders)
     for swap in (0, 1):
         for k in range(0, 9):
@@ -185,6 +183,11 @@ def generate(rng, tier, mode="default"):
     for _ in range(300 if quick else 5000):
         cap = rng.choice([2, 4, 8, 16]); first = rng.randrange(cap); size = rng.randint(0, cap)
         out.append([hdr(cap=cap, first=first, size=size, junk=rng.choice([0, 1, 1]))] + random_history(rng, rng.randint(1, 12)) + ["END"])
+    # queue zip iterator over two queues of DIFFERENT buffer capacities (one of them grown), replace at every position
+    for cap1, n1, cap2, n2 in ((8, 3, 2, 9), (2, 9, 8, 3), (4, 4, 4, 4), (1, 3, 8, 2), (8, 8, 8, 9), (2, 5, 16, 5)):
+        for nx in range(1, min(n1, n2) + 1):
+            out.append([hdr("queue", cap=cap1)] + ["enqueue %d" % (10 + i) for i in range(n1)] + ["new2 %d" % cap2] + ["enqueue2 %d" % (50 + i) for i in range(n2)]
+                       + ["qzip_init"] + ["qzip_next"] * nx + ["qzip_replace 5 6", "qzip_next", "qzip_replace 7 8", "peek", "poll", "poll2", "poll", "poll2", "foreach", "END"])
     # queue: long FIFO interleavings for every configured capacity 1..9
     for cap in range(1, 10):
         out.append([hdr("queue", cap=cap)] + queue_history(rng, 300 if quick else 3000) + ["END"])
